@@ -148,6 +148,9 @@ def run_impl(case):
         else:
             leq = lambda a, b: m[a][b]   # noqa
             cls = {'U': UpperSemiLattice, 'L': LowerSemiLattice, 'B': Lattice}[case['kind']]
+            if case.get('tree'):               # BinaryTree: an UpperSemiLattice whose elements form a binary tree
+                from fcapy.poset.tree import BinaryTree
+                cls = BinaryTree
             cd = PL.true_children(m, init) if case.get('cd') and case['cache'] else None
             try:
                 p = cls(init, leq, use_cache=case['cache'], children_dict=cd)
@@ -267,6 +270,61 @@ def poset_case(rng, max_ops):
     ops = sl_history(rng, m, kind, init, rng.randint(3, max_ops), cache) if ctor_ok(m, kind, init) else []
     return {'matrix': m, 'kind': kind, 'init': init, 'cache': cache, 'cd': cd, 'ops': ops,
             'level': 'poset', 'okind': okind}
+
+
+def tree_case(rng, max_ops):
+    """A history on a BinaryTree object (class UpperSemiLattice in model and spec).  Carriers: the
+    nodes of a random full binary tree (descendant <= ancestor), one carrier above the root, one
+    below a leaf, one incomparable with everything.  The element sets and inserts are chosen so
+    that BinaryTree's own refusals (constructor: 0 or 2 children; add: two upper neighbours) never
+    apply; what remains must behave as the upper semilattice it is: inserts beside the root are
+    refused, an insert above the root becomes the new top."""
+    t = rng.choice([1, 3, 3, 5, 5, 7])
+    parent, leaves, nxt = {}, [0], 1
+    while nxt < t:
+        l = leaves.pop(rng.randrange(len(leaves)))
+        for c in (nxt, nxt + 1):
+            parent[c] = l
+            leaves.append(c)
+        nxt += 2
+    edges = [(c, q) for c, q in parent.items()]
+    above, below, iso = t, t + 1, t + 2
+    edges += [(0, above), (below, rng.choice(leaves))]
+    m = PL.closure(t + 3, edges)
+    init = list(range(t))
+    rng.shuffle(init)
+    cache = rng.random() < 0.8
+    cur, ops = list(init), []
+
+    def do(o):
+        nonlocal cur
+        ops.append(o)
+        cur = list(sim(m, 'U', cur, o)[0])
+    n_ops = rng.randint(3, max_ops)
+    while len(ops) < n_ops:
+        top = cur[extremes(m, cur, True)[0]]
+        absent = [x for x in range(t + 3) if x not in cur]
+        r = rng.random()
+        fill = rng.random() < 0.6
+        if r < 0.2 and iso in absent:
+            do(['add', iso, fill])                                   # beside the root: refused
+        elif r < 0.4 and above in absent:
+            do(['add', above, fill])                                 # above the root: the new top
+        elif r < 0.5 and absent:
+            do(['add', rng.choice(absent), fill])
+        elif r < 0.6:
+            do(['add', rng.choice([top, rng.choice(cur)]), fill])    # present element
+        elif r < 0.78:
+            do(['del', rng.randrange(len(cur))])
+        elif r < 0.93:
+            do(['rm', rng.choice(cur)])
+        else:
+            do(['rm', rng.choice(absent)] if absent else ['len'])
+        ops.extend(sl_queries(rng, 'U', len(cur), cur, t + 3)[:rng.randint(0, 2)])
+        if rng.random() < 0.5:
+            ops.append(rng.choice([['top'], ['ex', True], ['ex', False]]))
+    return {'matrix': m, 'kind': 'U', 'init': init, 'cache': cache, 'cd': False, 'ops': ops,
+            'level': 'poset', 'okind': 'binary-tree', 'tree': True}
 
 
 def ctor_refusal_case(rng):
@@ -474,12 +532,14 @@ def generate(rng, tier):
         n_hist, n_ctor, n_conc, max_ops, max_conc, n_big = 34000, 3000, 5000, 30, 12, 1200
         n_ctx = 4000
     else:
-        n_hist, n_ctor, n_conc, max_ops, max_conc, n_big = 1300, 150, 240, 12, 8, 40
+        n_hist, n_ctor, n_conc, max_ops, max_conc, n_big = 1100, 150, 220, 12, 8, 40
         n_ctx = 200
     for _ in range(n_hist):
         cases.append(poset_case(rng, max_ops))
     for _ in range(n_ctor):
         cases.append(ctor_refusal_case(rng))
+    for _ in range(n_hist // 6):
+        cases.append(tree_case(rng, max_ops))
     def listed(c):                # half of the concept-level cases use permuted extent listings
         return add_listing(rng, c) if rng.random() < 0.5 else c
     for _ in range(n_conc):
@@ -515,7 +575,7 @@ def nontrivial(case):
 
 def stats(case):
     acc, ref = _refusals(case)
-    return {'class': case['kind'] if case.get('level') not in ('concept', 'fromctx') else
+    return {'class': ('BinaryTree' if case.get('tree') else case['kind']) if case.get('level') not in ('concept', 'fromctx') else
             ('ConceptLattice' if case.get('level') == 'concept' else 'ConceptLattice.from_context(%s%s)' % (
                 case.get('algo'), ', pruned' if case.get('ctx_kwargs') else '')),
             'has_nofill_readd': any(o[0] == 'add' and not o[2] for o in case['ops']),
